@@ -618,7 +618,7 @@ fn cmd_gen(prop: &str, seed: u64, tier: &str, outdir: &str) {
         oracle_cases: 0,
         prop: prop.to_string(),
     };
-    let n_cases: u64 = std::env::var("VERIF_CASES").ok().and_then(|s| s.parse().ok()).unwrap_or(if thorough { 4000 } else { 250 });
+    let n_cases: u64 = std::env::var("VERIF_CASES").ok().and_then(|s| s.parse().ok()).unwrap_or(if thorough { 8000 } else { 800 });
     // corpus first
     let corpus_dir = format!("{}/../corpus/{}", env!("CARGO_MANIFEST_DIR"), prop);
     if let Ok(rd) = std::fs::read_dir(&corpus_dir) {
